@@ -26,7 +26,8 @@ RULE = ("per seeded base pipeline, ~6 cases sampled from: valid run; valid + {--
         "later node}; keys supplied by --context / by run-space; malformed run-space {unequal lengths, duplicate keys, bad mode, "
         "bad combine}; run-space over max_runs (block and --run-space-max-runs); missing pipeline / run-space source file; "
         "argparse usage error; multi-run launch with a failing run at index i. distinct_nontrivial = distinct (base digest, case "
-        "kind, flags) cases executed.")
+        "kind, flags) cases executed."
+        " Further seeded dimensions: cap 0 / product-1, -v/-q/--verbose, subclass type gate, duplicate keys via sources/rename, --run-space-file with flags, empty side of a by_position block, rename collisions in both column orders, failing runs ending with SimAbort / SystemExit, 1.2 % subprocess cross-check.")
 REAL_COMPONENTS = ["semantiva.cli main/_run", "YAML loader / parse_pipeline_config", "inspection builder + validator",
                    "expand_run_space", "Pipeline/orchestrator/trace driver for accepted configs"]
 STUB_COMPONENTS = ["leaf processors", "RecordingExecutor/SvOrchestrator (selected from YAML execution block)", "file seam + sandbox tree diff"]
